@@ -3,10 +3,22 @@
 #include "momo/Array.h"
 #include "momo/SegmentedArray.h"
 namespace momo {
+// an INPUT (non-forward) iterator: selects ArrayShifter::Insert (one InsertCrt per item)
+struct C05InIt
+{
+	typedef std::input_iterator_tag iterator_category; typedef uint64_t value_type; typedef ptrdiff_t difference_type;
+	typedef const uint64_t* pointer; typedef const uint64_t& reference;
+	const uint64_t* p;
+	reference operator*() const { return *p; }
+	C05InIt& operator++() { ++p; return *this; }
+	bool operator==(C05InIt o) const { return p == o.p; }
+	bool operator!=(C05InIt o) const { return p != o.p; }
+};
 inline void c05_use(Array<uint64_t>& a, SegmentedArray<uint64_t>& s, const uint64_t& item)
 {
 	a.Insert(0, 1, item); a.Remove(0, 1); a.RemoveBack(1); a.AddBackNogrow(item); (void)a[0];
 	a.AddBack(item); { uint64_t t = 1; a.AddBack(std::move(t)); } a.Shrink(1); a.Reserve(1);
+	{ uint64_t t = 1; a.Insert(0, std::move(t)); } a.SetCount(3, item); a.Clear(true); a.Insert(0, C05InIt{&item}, C05InIt{&item + 1});
 	s.Insert(0, 1, item); s.Remove(0, 1); s.RemoveBack(1); s.Shrink(1);
 }
 }
